@@ -28,6 +28,9 @@ DEFAULT = {"http": 80, "https": 443, "ws": 80, "wss": 443, "ftp": 21}
 def plan(tier, seed):
     thorough = tier == "thorough"
     jobs = [{"variant": "c", "part": "kernel", "params": {}}, {"variant": "py", "part": "kernel", "params": {}}]
+    ns = 16 if thorough else 2
+    for s in range(ns):
+        jobs.append({"variant": "c" if s % 2 else "py", "part": "shapes", "shard": s, "nshards": ns, "params": {"stride": 2 if thorough else 50}})
     nr = 16 if thorough else 4
     for s in range(nr):
         jobs.append({"variant": "c" if s % 2 else "py", "part": "random", "shard": s, "nshards": nr, "params": {"n": 300000 if thorough else 8000}})
@@ -163,6 +166,23 @@ def run(ctx):
                     check(ctx, mk(h, q=[("k", t), ("k2", t)]), ("qval", cls, hk))
                     check(ctx, mk(h, fragment=t), ("fragment", cls, hk))
         ctx.sample({"kw": mk("bücher.example", user="a@b", password="p:w/d", path="/é #?", q=[("k&", "v=+;")], fragment="f#%")})
+        return
+    if ctx.part == "shapes":
+        from ..shapes import iter_shapes
+
+        stride = ctx.params["stride"] * ctx.nshards
+        for lab, text_, kw in iter_shapes(stride, ctx.shard * ctx.params["stride"] + ctx.seed % ctx.params["stride"]):
+            if kw is None or not kw.get("scheme") or not kw.get("host"):
+                continue
+            kw = dict(kw)
+            qs = kw.pop("query_string", None)
+            if qs:
+                kw["query"] = [tuple((p.split("=", 1) + [""])[:2]) for p in qs.replace("+", " ").split("&") if p]
+                kw["query"] = [(k.replace("%26", "&").replace("%3D", "=").replace("%2B", "+"), v.replace("%26", "&").replace("%3D", "=").replace("%2B", "+")) for k, v in kw["query"]]
+            if kw.get("fragment"):
+                kw["fragment"] = kw["fragment"].replace("%20", " ").replace("%23", "#")
+            kw["path"] = kw.get("path", "").replace("%20", " ").replace("%2F", "|")
+            check(ctx, kw, ("shape",) + lab[1:4])
         return
     r = ctx.rng
     tg = TextGen(r, surrogates=False)
